@@ -22,6 +22,7 @@ import idx2
 import fin
 import prog
 import repl
+import guard
 import engine as _engine
 
 
@@ -231,7 +232,7 @@ PROPS = {
                        "R-DEAD: status chains (fixed / constrained / free) have no dead branch. That re-adjustment of the exported file needs no iteration is not decided.",
     },
     "C15": {
-        "rules": [repl.rule_replica, dim.rule_dim, pair.rule_memrep, step_rule, scratch_rule, lazy.rule_lazy_conditional_fields],
+        "rules": [repl.rule_replica, guard.rule_guard, dim.rule_dim, pair.rule_memrep, step_rule, scratch_rule, lazy.rule_lazy_conditional_fields],
         "explanation": "R-DIM: in every lib/matvec function touching elements of two or more operands a dimension comparison whose failing "
                        "branch throws Exception::BadRank (or a resize / a checking callee) dominates the first element access; R-PAIR P3: "
                        "MemRep's owning pointer comes only from new[], null or a moved-from rvalue, copies allocate and copy exactly the "
